@@ -390,11 +390,16 @@ pub fn s3(variant: u64, sub: u64, rng: &mut Rng) -> Result<Scn, String> {
 // ------------------------------------------------------------------------------------------------ S4: pool at the limit
 /// `n` distinct constants of mixed kinds spread over several methods, then `extra` more Integer constants (one slot
 /// each; the caller uses them to hit an exact constant_pool_count), then optionally a Long as the very last entry
-pub fn s4(n: usize, extra: usize, last_is_long: bool) -> Scn {
+/// `shared` (0..=2): string constants spelled like the class's own name / its first method's name. They share one Utf8 entry with that name
+/// in the source; a renaming separates them, so the writer needs `shared` more slots after the remap than the source pool had - the way a
+/// reader-produced tree can ask for a pool one or two slots beyond the limit, with the two-slot constant as the writer's last entry.
+pub fn s4(n: usize, extra: usize, last_is_long: bool, shared: usize) -> Scn {
     let mut c = Class { major: 52, minor: 0, access: 0x0021, this_class: JS::new("scn/Pool"), super_class: Some(JS::new("java/lang/Object")), ..Default::default() };
     let per = 12000;
     let mut consts: Vec<Const> = (0..n).map(|i| match i % 16 { 3 => Const::Long(i as i64 + 10), 7 => Const::Str(JS::new(&format!("s{i}"))), 11 => Const::Double(i as u64), _ => Const::Int(i as i32 + 1000) }).collect();
     consts.extend((0..extra).map(|j| Const::Int(-1_000_000 - j as i32)));
+    if shared >= 1 { consts.insert(0, Const::Str(JS::new("scn/Pool"))); }
+    if shared >= 2 { consts.insert(0, Const::Str(JS::new("m0"))); }
     if last_is_long { consts.push(Const::Long(-7)); }
     for (mi, chunk) in consts.chunks(per).enumerate() {
         let mut insns = vec![];
@@ -402,7 +407,7 @@ pub fn s4(n: usize, extra: usize, last_is_long: bool) -> Scn {
         insns.push(Insn::Op(177));
         c.methods.push(Method { access: 0x0009, name: JS::new(&format!("m{mi}")), desc: JS::new("()V"), code: Some(Code { max_stack: 2, max_locals: 0, insns, ..Default::default() }), ..Default::default() });
     }
-    Scn { kind: "s4", class: c, front: vec![], info: json!({"scenario": "constant pool at the 65535 limit", "constants": consts.len(), "last_is_long": last_is_long}) }
+    Scn { kind: "s4", class: c, front: vec![], info: json!({"scenario": "constant pool at the 65535 limit", "constants": consts.len(), "last_is_long": last_is_long, "strings_sharing_a_name_entry": shared}) }
 }
 
 // ------------------------------------------------------------------------------------------------ S5: ldc index 255/256, locals 255/256
